@@ -780,6 +780,11 @@ func (m *Machine) model(fn *ssa.Function, args []Value, res ssa.Value) *modelRes
 			unsupported("%s outside BMC", name)
 		}
 		return m.bmcHooks.intrinsic(m, name, fn, args)
+	case "(*sync.Mutex).Lock", "(*sync.RWMutex).Lock", "(*sync.Mutex).Unlock", "(*sync.RWMutex).Unlock", "(*sync.RWMutex).RLock", "(*sync.RWMutex).RUnlock":
+		if m.bmcHooks == nil {
+			return ret(nil) // sequential code, one thread: locks never contend
+		}
+		return m.bmcHooks.intrinsic(m, name, fn, args)
 	case "time.Sleep", "time.After":
 		if m.bmcHooks == nil {
 			unsupported("%s outside BMC", name)
